@@ -24,7 +24,7 @@ use std::io;
 use std::process::{self, Command};
 
 use redo::logs::LogBuilder;
-use redo::{self, Env, ENV_NO_OOB, ENV_UNLOCKED, EXIT_FAILURE};
+use redo::{self, Env, ENV_NO_DEPS, ENV_NO_OOB, ENV_UNLOCKED, EXIT_FAILURE};
 
 pub(crate) fn run() -> Result<(), Error> {
     let mut args = env::args_os();
@@ -43,11 +43,12 @@ pub(crate) fn run() -> Result<(), Error> {
     // These are dependencies of the primary target, not of the target whose
     // script called us: do not let redo-ifchange record them against REDO_TARGET
     // (which of them are rebuilt here depends on the order in which dirtiness
-    // happens to be discovered).
+    // happens to be discovered).  REDO_TARGET itself must stay: the names in the
+    // log records written below are relative to that target's directory.
     let status = Command::new("redo-ifchange")
         .args(deps.iter().cloned())
         .env(ENV_NO_OOB, "1")
-        .env_remove("REDO_TARGET")
+        .env(ENV_NO_DEPS, "1")
         .spawn()?
         .wait()?;
     if !status.success() {
